@@ -154,12 +154,11 @@ func (v *visitor) VisitPrimaryExpr(ctx *parser.PrimaryExprContext) any {
 			// map["key"]
 			var name string
 			index := ctx.Index().Expression().Accept(v)
-			switch iv := index.(type) {
-			case int64:
+			if iv, ok := IsInt(index); ok { // 任意整数类型(如 range 的下标是 int)
 				name = strconv.FormatInt(iv, 10)
-			case string:
-				name = iv
-			default:
+			} else if sv, ok := index.(string); ok {
+				name = sv
+			} else {
 				return v.SetError(ctx, "expected index to be int or string, got %T(%v)",
 					index, index)
 			}
@@ -182,7 +181,7 @@ func (v *visitor) VisitPrimaryExpr(ctx *parser.PrimaryExprContext) any {
 			sctx := ctx.Slice()
 			var getIntValue = func(e parser.IExpressionContext) (int64, error) {
 				val := e.Accept(v)
-				if i, ok := val.(int64); ok {
+				if i, ok := IsInt(val); ok {
 					return i, nil
 				} else {
 					return 0, errors.Errorf("expected integer, got %T(%v)", val, val)
